@@ -224,4 +224,43 @@ mod verif_udp {
         kani::cover!(r.is_ok(), "emit accepted");
         std::mem::forget(r);
     }
+
+    // ---- interference at lock acquisition (rely): while this thread waits for the sink's lock, other
+    // threads may run whole flush() calls on the same sink
+    static mut SHARED: Option<&'static BufferedUdpMetricSink> = None;
+    static IN_OTHER: AtomicUsize = AtomicUsize::new(0);
+    static OTHER_FLUSHES: AtomicUsize = AtomicUsize::new(0);
+
+    fn lock_with_interference<T>(m: &std::sync::Mutex<T>) -> std::sync::LockResult<std::sync::MutexGuard<'_, T>> {
+        if IN_OTHER.load(Ordering::SeqCst) == 0 && OTHER_FLUSHES.load(Ordering::SeqCst) < 1 && kani::any() {
+            IN_OTHER.store(1, Ordering::SeqCst);
+            OTHER_FLUSHES.fetch_add(1, Ordering::SeqCst);
+            if let Some(s) = unsafe { SHARED } { let r = s.flush(); std::mem::forget(r); }   // another thread's whole flush()
+            IN_OTHER.store(0, Ordering::SeqCst);
+        }
+        match m.try_lock() {
+            Ok(g) => Ok(g),
+            Err(std::sync::TryLockError::Poisoned(p)) => Err(p),
+            Err(std::sync::TryLockError::WouldBlock) => { kani::assume(false); unreachable!() }
+        }
+    }
+
+    //@H name=c12_udp_flush_after_interference props=C06,C12,C20 bound="capacity 8, one 2-byte metric, at most one interfering flush() of another thread at a lock acquisition" fn=BufferedUdpMetricSink::emit,flush :: thread-modular: whatever whole flush() calls other threads run while this thread waits for the sink lock, after this thread's emit returned Ok and its own flush returned Ok the metric has been handed to the socket
+    #[kani::proof]
+    #[kani::unwind(4)]
+    #[kani::stub(std::net::UdpSocket::send_to, send_to_stub)]
+    #[kani::stub(std::sync::Mutex::lock, lock_with_interference)]
+    fn c12_udp_flush_after_interference() {
+        let s: &'static BufferedUdpMetricSink = Box::leak(Box::new(BufferedUdpMetricSink::with_capacity(any_addr(), fake_socket(), 8).ok().unwrap()));
+        unsafe { SHARED = Some(s); }
+        OUTCOME.store(4, Ordering::SeqCst);
+        let r = s.emit("ab");
+        assert!(matches!(r, Ok(2)), "[C12] emit succeeds (the socket accepts)");
+        let f = s.flush();
+        assert!(f.is_ok(), "[C12] flush succeeds (the socket accepts)");
+        assert!(CALLS.load(Ordering::SeqCst) >= 1 && LEN.load(Ordering::SeqCst) == 3, "[C06,C12] after emit Ok and a later flush Ok the metric is on the wire, whole and with its newline, whatever other threads flushed in between");
+        kani::cover!(OTHER_FLUSHES.load(Ordering::SeqCst) == 1, "another thread flushed in between");
+        kani::cover!(OTHER_FLUSHES.load(Ordering::SeqCst) == 0, "no interference");
+        std::mem::forget(r); std::mem::forget(f);
+    }
 }
